@@ -118,6 +118,10 @@ type Violation struct {
 
 func (v Violation) Key() string { return v.Property + "/" + v.Rule + "/" + v.Sig }
 
+// KnownSigs holds "property/rule/signature" keys of listed known findings; a
+// run does not stop at them (set by the driver from known-findings.jsonl).
+var KnownSigs = map[string]bool{}
+
 // World is one simulated execution.
 type World struct {
 	Cfg  *Config
@@ -203,6 +207,9 @@ func (w *World) Report(v Violation) {
 	w.violSeen[k] = true
 	w.Viol = append(w.Viol, v)
 	w.Tracef("VIOLATION %s/%s sig=%s: %s", v.Property, v.Rule, v.Sig, v.Msg)
+	if KnownSigs[k] {
+		return // a listed known finding: keep going so that other violations are still found
+	}
 	if w.Cfg.StopOn == "" || w.Cfg.StopOn == v.Property {
 		w.stopNow = true
 	}
